@@ -85,10 +85,19 @@ def check_data_side(ctx, rng):
     else:
         cases = [c for i, c in enumerate(cases + special) if i % ctx.nshards == ctx.shard]
     for ci, (fe, verdict, L, t_data, lat, await_at) in enumerate(cases):
-        run_data_case(ctx, fe, verdict, L, t_data, lat, await_at, implicit=(ci % 3 == 1))
+        run_data_case(ctx, fe, verdict, L, t_data, lat, await_at, implicit=(ci % 3 == 1), falsy_obj=(ci % 4 == 2))
 
 
-def run_data_case(ctx, fe, verdict, L, t_data, lat, await_at=0, implicit=False):
+def as_object(fn):
+    """The same validator as a callable OBJECT that is empty, hence false in a boolean test (e.g. a key store with no keys yet): it is
+    still the validator supplied for the Interest."""
+    class EmptyStoreValidator(dict):
+        async def __call__(self, *a):
+            return await fn(*a)
+    return EmptyStoreValidator()
+
+
+def run_data_case(ctx, fe, verdict, L, t_data, lat, await_at=0, implicit=False, falsy_obj=False):
     obs = {}
     vlog = []
     name = [C(b'd'), C(b'x')]
@@ -108,7 +117,7 @@ def run_data_case(ctx, fe, verdict, L, t_data, lat, await_at=0, implicit=False):
                     await asyncio.sleep(lat / 1000)
                 vlog.append(('ret', S.now_ms()))
                 return give(fe, verdict)
-            coro = the_app.express(iname, validator, lifetime=L, nonce=1)
+            coro = the_app.express(iname, as_object(validator) if falsy_obj else validator, lifetime=L, nonce=1)
         else:
             async def validator(n, sig):
                 vlog.append(('call', S.now_ms()))
@@ -116,7 +125,7 @@ def run_data_case(ctx, fe, verdict, L, t_data, lat, await_at=0, implicit=False):
                     await asyncio.sleep(lat / 1000)
                 vlog.append(('ret', S.now_ms()))
                 return give(fe, verdict)
-            coro = the_app.express_interest(iname, validator=validator, lifetime=L, nonce=1)
+            coro = the_app.express_interest(iname, validator=as_object(validator) if falsy_obj else validator, lifetime=L, nonce=1)
 
         async def waiter():
             if await_at:
@@ -149,6 +158,8 @@ def run_data_case(ctx, fe, verdict, L, t_data, lat, await_at=0, implicit=False):
     rel = 'before' if tv < L else 'at' if tv == L else 'after'
     if implicit:
         ctx.event('data-fetched-by-full-name')
+    if falsy_obj:
+        ctx.event('validator-is-a-falsy-callable-object')
     ctx.case(('data', fe, repr(verdict), L, t_data, lat, await_at, implicit), nontrivial=True, sample=w if ctx.evaluations % 60 == 0 else None)
     ctx.event(f'data-{rel}-deadline')
     if await_at:
@@ -293,9 +304,19 @@ def build_interest(rng, prefix, seq, app, signer_kind, digest_mode):
     name = list(prefix) + [rc.comp(8, str(seq).encode())]
     signer = None
     if signer_kind != 'unsigned':
-        signer, _ = pkts.make_signer(rng, {'digest': 'digest-int', 'hmac': 'hmac', 'ecdsa': 'ecdsa256'}[signer_kind])
+        signer, _ = pkts.make_signer(rng, {'digest': 'digest-int', 'hmac': 'hmac', 'ecdsa': 'ecdsa256', 'siginfo-only': 'digest-int'}[signer_kind])
     app_param = {'absent': None, 'empty': b'', 'nonempty': b'param-bytes'}[app]
     wire = bytes(make_interest(name, InterestParam(nonce=seq, lifetime=4000), app_param, signer))
+    if signer_kind == 'siginfo-only':
+        # half-signed: the InterestSignatureInfo is there, the InterestSignatureValue is not (digest recomputed): it still "carries a
+        # signature" for the purposes of the digest check and the validator
+        buf, vs, ve = rc.outer(wire, 5)
+        kids = rc.children(buf, vs, ve)
+        keep = [k for k in kids if k[0] != 0x2e]
+        params_from = [k for k in keep if k[0] in (0x24, 0x2c)][0][1]
+        params = buf[params_from:keep[-1][3]]
+        comps = [rc.comp(2, __import__('hashlib').sha256(params).digest()) if rc.comp_parts(c)[0] == 2 else c for c in rc.strict_interest(wire)['name']]
+        wire = rc.enc_tlv(5, rc.enc_name(comps) + buf[keep[0][3]:keep[-1][3]])
     ref = rc.strict_interest(wire)
     has_digest = any(rc.comp_parts(c)[0] == 2 for c in ref['name'])
     if digest_mode != 'ok' and has_digest:
@@ -330,7 +351,7 @@ def check_interest_side(ctx, rng):
         configs += [('v', r, 0) for r in RAISES] + [('v', 'raise:TimeoutError', 30)]
         matrix = []
         for app in ('absent', 'empty', 'nonempty'):
-            for sk in ('unsigned', 'digest', 'hmac', 'ecdsa'):
+            for sk in ('unsigned', 'digest', 'hmac', 'ecdsa', 'siginfo-only'):
                 for dm in ('ok', 'bitflip', 'missing', 'short', 'trailer'):
                     if app == 'absent' and sk == 'unsigned' and dm != 'ok':
                         continue
@@ -619,7 +640,7 @@ def run(ctx):
     check_validator_in_force(ctx, rng)
     if ctx.shard == 0:
         check_interest_side(ctx, rng)
-    need = ['data-fetched-by-full-name', 'validator-in-force-history', 'multi-interest-data', 'data-awaited-later-than-expressed', 'data-validator-raised', 'data-before-deadline', 'data-after-deadline', 'data-at-deadline', 'payload-returned', 'validation-failure', 'timeout']
+    need = ['validator-is-a-falsy-callable-object', 'data-fetched-by-full-name', 'validator-in-force-history', 'multi-interest-data', 'data-awaited-later-than-expressed', 'data-validator-raised', 'data-before-deadline', 'data-after-deadline', 'data-at-deadline', 'payload-returned', 'validation-failure', 'timeout']
     if ctx.shard == 0:
         need += ['interest-needs-validation', 'interest-plain', 'validated-then-delivered', 'dropped', 'dropped-after-validator-raised']
     for k in need:
